@@ -17,7 +17,7 @@ env = dict(os.environ, GOPROXY="off", GOFLAGS="-mod=mod", VERIF_REPO=repo)
 def sh(cmd, timeout=3000):
     p = subprocess.run(cmd, shell=True, cwd=here, env=env, capture_output=True, text=True, timeout=timeout)
     return p.returncode, (p.stdout + p.stderr)[-3000:]
-EXTRA = {"C02-m1": ["C02", "C10"], "C08-m2": ["C08", "C10"], "C03-m4": ["C03", "C04"], "C07-m4": ["C07", "C20"], "C07-m6": ["C07", "C20"], "C12-m4": ["C12", "C17"], "C17-m5": ["C17", "C12"], "C05-m8": ["C05", "C02"], "C15-m7": ["C15", "C09"], "C09-m7": ["C09", "C15"]}
+EXTRA = {"C02-m1": ["C02", "C10"], "C08-m2": ["C08", "C10"], "C03-m4": ["C03", "C04"], "C07-m4": ["C07", "C20"], "C07-m6": ["C07", "C20"], "C12-m4": ["C12", "C17"], "C17-m5": ["C17", "C12"], "C05-m8": ["C05", "C02"], "C15-m7": ["C15", "C09"], "C09-m7": ["C09", "C15"], "C15-m9": ["C15", "C14"], "C15-m10": ["C15", "C14"], "C11-m10": ["C11", "C14"], "C08-m9": ["C08", "C10"], "C17-m10": ["C17", "C01"], "C12-m10": ["C12", "C17"], "C09-m8": ["C09", "C02", "C15"]}
 names = sys.argv[1:] or sorted(os.path.basename(d) for d in glob.glob(here + "/seeded/C*-m*"))
 os.makedirs(here + "/work", exist_ok=True)
 sh("bin/setup.sh > work/setup.log 2>&1")
